@@ -211,3 +211,12 @@ def run(chk):
         c17_width = None
     if c17_width is not None:
         c17_width.run(chk, prog)
+    # R4: the caller that prints argument descriptions without first-line indentation (usage of the argument
+    # handler) lays the key column out for exactly the arguments it prints - otherwise the first line of a
+    # description starts beyond the block indentation and overruns the line length (rule shared with C18-R5)
+    from . import c18
+    from .. import rules as _rules
+    prog2, units2 = _rules.prog_args_program()
+    chk.units = list(chk.units) + [u for u in units2 if u.endswith('argument_desc.cpp')]
+    chk.rule('R4', 'usage printing: the key column is laid out for exactly the arguments that are printed', 9)
+    c18.r5_visibility_arguments(chk, prog2, rule='R4')
